@@ -438,6 +438,9 @@ class Lower:
             if len(self.pre) != mark:
                 raise Abort('may-throw call on the right of %s in %s' % (op, self.cur_fn))
             return '(%s %s %s)' % (ea, op, eb)
+        if op == '=' or n.get('kind') == 'CompoundAssignOperator':
+            eb = self.E(b)          # C++17: the right operand of an assignment is sequenced first
+            return '(%s %s %s)' % (self.E(a), op, eb)
         return '(%s %s %s)' % (self.E(a), op, self.E(b))
     e_CompoundAssignOperator = e_BinaryOperator
 
@@ -576,7 +579,7 @@ class Lower:
             out.append(cur.strip())
         return out
 
-    def emit_call(self, name, argl, rettype_node, ghostkey=None):
+    def emit_call(self, name, argl, rettype_node, ref=False):
         """returns expression text; hoists may-throw calls into a temporary with an exception check"""
         call = '%s(%s)' % (name, ', '.join(argl))
         for (fn, callee, when, code) in self.ghost_for(name):
@@ -586,8 +589,8 @@ class Lower:
         if name in self.may_throw or after:
             self.cur_calls.add(name)
             rt = self.ctype(rettype_node['type']) if rettype_node is not None else 'void'
-            if self.is_ref(self.qt(rettype_node or {})):
-                pass
+            if ref:
+                rt += ' *'
             if rt == 'void':
                 self.pre.append(call + ';')
                 res = '((void)0)'
@@ -614,9 +617,31 @@ class Lower:
         return x
 
     def call_returns_ref(self, tgt, ref=None):
-        sig = self.qt(tgt or ref or {})
-        ret = sig.split('(')[0].strip()
-        return ret.endswith('&')
+        return self.ret_of_sig(self.qt(tgt or ref or {})).endswith('&')
+
+    @staticmethod
+    def ret_of_sig(sig):
+        depth = 0
+        for i, ch in enumerate(sig):
+            if ch == '<':
+                depth += 1
+            elif ch == '>':
+                depth -= 1
+            elif ch == '(' and depth == 0:
+                return sig[:i].strip()
+        return sig.strip()
+
+    def by_value_param(self, pt):
+        """const T& of a scalar T is passed by value to stubs"""
+        if not pt or not self.is_ref(pt):
+            return True
+        if 'const' not in pt:
+            return False
+        try:
+            ct = self.ctype(strip_ptr(pt))
+        except Abort:
+            return False
+        return not ct.startswith('struct') and not ct.endswith('*')
 
     def e_CallExpr(self, n):
         ins = self.inner(n)
@@ -631,8 +656,9 @@ class Lower:
         if isinstance(name, dict):
             return self.stub_expand(name, None, [self.E(a) for a in ins[1:]], n)
         argl = self.args(tgt, ins[1:], self.param_types_from_sig(self.qt(r)))
-        x = self.emit_call(name, argl, n)
-        if self.call_returns_ref(tgt, r):
+        isref = self.call_returns_ref(tgt, r) or n.get('valueCategory') == 'lvalue'
+        x = self.emit_call(name, argl, n, ref=isref)
+        if isref:
             x = '(*%s)' % x
         return x
 
@@ -684,9 +710,10 @@ class Lower:
         if isinstance(name, dict):
             return self.stub_expand(name, objp, self.args(tgt, ins[1:], ptypes), n)
         argl = [objp] + self.args(tgt, ins[1:], ptypes)
-        x = self.emit_call(name, argl, n)
         sig = self.qt(tgt) if tgt else self.qt(me)
-        if sig.split('(')[0].strip().endswith('&') or (tgt is not None and tgt.get('kind') == 'CXXConversionDecl' and False):
+        isref = self.ret_of_sig(sig).endswith('&') or n.get('valueCategory') == 'lvalue'
+        x = self.emit_call(name, argl, n, ref=isref)
+        if isref:
             x = '(*%s)' % x
         return x
 
@@ -716,8 +743,9 @@ class Lower:
                     argl = [self.addr(self.E(ins[1]))] + self.args(tgt, ins[2:])
                 else:
                     argl = self.args(tgt, ins[1:])
-                x = self.emit_call(name, argl, n)
-                if self.call_returns_ref(tgt):
+                isref = self.call_returns_ref(tgt)
+                x = self.emit_call(name, argl, n, ref=isref)
+                if isref:
                     x = '(*%s)' % x
                 return x
         # library operator: key on operator name and the (normalised) operand types
@@ -739,8 +767,9 @@ class Lower:
                     if self.is_ref(pt):
                         x = self.addr(x)
                     argl.append(x)
-                x = self.emit_call(st, argl, n)
-                if self.qt(r).split('(')[0].strip().endswith('&'):
+                isref = self.ret_of_sig(self.qt(r)).endswith('&') or n.get('valueCategory') == 'lvalue'
+                x = self.emit_call(st, argl, n, ref=isref)
+                if isref:
                     x = '(*%s)' % x
                 return x
         raise Abort('operator call %s on (%s) [%s] has no stub (in %s, line %s)' % (opname, ', '.join(ots), self.qt(r), self.cur_fn, Ast.where(n)[1]))
@@ -769,7 +798,7 @@ class Lower:
             if ct in self.guarded:
                 raise Abort('temporary of guarded type %s in %s' % (ct, self.cur_fn))
             return t
-        key = 'ctor:%s|%s' % (rec, ctort)
+        key = 'ctor:%s|%s' % (rec, norm_type(ctort))
         st = self.stubs.get(key)
         if st is None:
             raise Abort('constructor stub missing: %r (in %s, line %s)' % (key, self.cur_fn, Ast.where(n)[1]))
@@ -781,7 +810,7 @@ class Lower:
             if a.get('kind') == 'CXXDefaultArgExpr':
                 continue
             x = self.E(a)
-            if i < len(ptypes) and self.is_ref(ptypes[i]):
+            if i < len(ptypes) and self.is_ref(ptypes[i]) and not self.by_value_param(ptypes[i]):
                 x = self.addr(x)
             argl.append(x)
         return self.emit_call(st, argl, n)
@@ -820,7 +849,8 @@ class Lower:
         if self.try_stack:
             lbl, depth = self.try_stack[-1]
             return pad + 'if (vs_exc) {\n' + self.dtors(ind + 1, len(self.scopes) - depth) + pad + '    goto %s; }\n' % lbl
-        return pad + 'if (vs_exc) {\n' + self.dtors(ind + 1, len(self.scopes)) + pad + '    return %s; }\n' % self.zero()
+        ne = pad + '    __CPROVER_assert(0, "noexcept function lets an exception escape (std::terminate)");\n' if self.cur_noexcept else ''
+        return pad + 'if (vs_exc) {\n' + ne + self.dtors(ind + 1, len(self.scopes)) + pad + '    return %s; }\n' % self.zero()
 
     def cond(self, n, what):
         mark = len(self.pre)
@@ -1017,6 +1047,8 @@ class Lower:
     def zero(self):
         if self.cur_ret == 'void':
             return ''
+        if self.cur_ret.endswith('*'):
+            return '0'
         if self.cur_ret.startswith('struct'):
             return '(%s){0}' % self.cur_ret
         return '0'
@@ -1111,7 +1143,10 @@ class Lower:
         pre = self.flush_pre(ind)
         if ct in self.guarded:
             self.scopes[-1].append((nm, ct))
-        return pre + pad + '%s%s = %s;\n' % (declt, nm, x)
+        ag = self.cur_spec.get('after_decl', {}).get(nm)
+        if ag:
+            self.after_decl_used.add(nm)
+        return pre + pad + '%s%s = %s;\n' % (declt, nm, x) + (pad + ag + '\n' if ag else '')
 
     def lambda_decl(self, v, lam, ind):
         pad = '    ' * ind
@@ -1230,7 +1265,7 @@ class Lower:
         k = d['kind']
         ps = []
         par = self.ast.ctx_parent(d)
-        if k in ('CXXMethodDecl', 'CXXConstructorDecl', 'CXXDestructorDecl', 'CXXConversionDecl') and d.get('storageClass') != 'static':
+        if k in ('CXXMethodDecl', 'CXXConstructorDecl', 'CXXDestructorDecl', 'CXXConversionDecl') and not self.is_static(d):
             ps.append('%s *this' % self.ctype(self.ast.qname(par) if par.get('kind') != 'ClassTemplateSpecializationDecl' else self.spec_name(par)))
         for i, p in enumerate(params_of(d)):
             ps.append('%s %s' % (self.ctype(p['type']), p.get('name') or 'vs_unnamed%d' % i))
@@ -1242,6 +1277,15 @@ class Lower:
             ret = self.ctype(rq)
             rref = rq.endswith('&')
         return ret, rref, '%s %s(%s)' % (ret, cname, ', '.join(ps) or 'void')
+
+    def is_static(self, d):
+        seen = set()
+        while d is not None and d.get('id') not in seen:
+            if d.get('storageClass') == 'static':
+                return True
+            seen.add(d.get('id'))
+            d = self.ast.byid.get(d.get('previousDecl'))
+        return False
 
     def ret_qt(self, d):
         sig = self.qt(d)
@@ -1279,9 +1323,11 @@ class Lower:
         self.cur_calls = set()
         self.rename = {}
         self.hoisted = []
+        self.after_decl_used = set()
         ret, rref, sig = self.signature(d, cname)
         self.cur_ret = ret
         self.ret_is_ref = rref
+        self.cur_noexcept = bool(re.search(r'\)\s*(const\s*)?noexcept\s*$', self.qt(d)))
         k = d['kind']
         pre = ''
         if k == 'CXXConstructorDecl':
@@ -1308,6 +1354,9 @@ class Lower:
         if pre or self.hoisted:
             body = '{\n' + ''.join('    ' + h + '\n' for h in self.hoisted) + pre + body[2:]
         self.calls[cname] = self.cur_calls
+        for nm in spec.get('after_decl', {}):
+            if nm not in self.after_decl_used:
+                raise Abort('ghost anchor: local %s not found in %s' % (nm, cname))
         contract = contract_lines(spec.get('contract', ''))
         file, line = Ast.where(d)
         return {'cname': cname, 'q': self.cur_q, 'sig': sig, 'contract': contract, 'body': body, 'closures': self.closures,
